@@ -34,6 +34,9 @@ pub struct Case {
     sybil_out: Vec<(u16, u16)>,
     /// every node receives the same statistics (0 = none at all)
     equal_stats: u8,
+    /// honest nodes (indices) all of whose statements are negative reports
+    #[serde(default)]
+    neg_only: Vec<u16>,
 }
 
 fn hid(i: u16) -> NodeId {
@@ -60,9 +63,10 @@ fn run_case(c: &Case) -> Verdict {
         let s = c.s.max(1);
         let pre: HashSet<NodeId> = (0..a).map(hid).collect();
         let e = EigenTrustEngine::new(pre);
+        let neg: HashSet<u16> = c.neg_only.iter().map(|x| x % h).collect();
         for (x, y, ok) in &c.honest_edges {
             for _ in 0..c.repeat.max(1) {
-                e.update_local_trust(&hid(x % h), &hid(y % h), *ok).await;
+                e.update_local_trust(&hid(x % h), &hid(y % h), *ok && !neg.contains(&(x % h))).await;
             }
         }
         let mut internal = 0usize;
@@ -161,6 +165,9 @@ fn run_case(c: &Case) -> Verdict {
         if !c.sybil_out.is_empty() {
             v.class("sybil_rates_honest");
         }
+        if (0..a).all(|i| neg.contains(&i)) && c.honest_edges.iter().any(|(x, _, _)| x % h < a) {
+            v.class("all_anchors_report_only_failures");
+        }
         v
     })
 }
@@ -188,7 +195,9 @@ fn case(max_h: u16, max_s: u16) -> impl Strategy<Value = Case> {
             2 => prop::collection::vec((0..s, 0..s), 1..(3 * s as usize + 2)).prop_map(Pattern::Random),
             1 => Just(Pattern::None),
         ];
-        (1u16..=50, honest, 1u8..4, pattern, prop::collection::vec((0..s, 0..h), 0..6), 0u8..4).prop_map(move |(anchors, honest_edges, repeat, pattern, sybil_out, equal_stats)| Case { h, anchors, s, honest_edges, repeat, pattern, sybil_out, equal_stats })
+        // negative-only reporters: none, the first few nodes (= the anchors), or a random subset
+        let neg = prop_oneof![3 => Just(Vec::new()), 2 => (1u16..=4).prop_map(|k| (0..k).collect::<Vec<u16>>()), 1 => prop::collection::vec(0..h, 0..8), 1 => Just((0..h).collect::<Vec<u16>>())];
+        (prop_oneof![3 => 1u16..=3, 2 => 1u16..=50], honest, 1u8..4, pattern, prop::collection::vec((0..s, 0..h), 0..6), 0u8..4, neg).prop_map(move |(anchors, honest_edges, repeat, pattern, sybil_out, equal_stats, neg_only)| Case { h, anchors, s, honest_edges, repeat, pattern, sybil_out, equal_stats, neg_only })
     })
 }
 
